@@ -57,4 +57,5 @@ run C39 && mut C39 protocol/rpcprovider/rpcprovider_server.go '	if requestSessio
 run C28 && mut C28 protocol/lavasession/consumer_session_manager.go '	cuToDecrease := consumerSession.LatestRelayCu
 ' '	cuToDecrease := consumerSession.LatestRelayCu / 2
 '
+run C22 && mut C22 x/spec/types/expand.go '			if _, found := depends[index]; found {' '			if _, found := depends[index]; found && index != spec.Index {'
 exit 0
